@@ -123,7 +123,7 @@ def map_bodies(code, f):
     return f(out)
 
 
-def repair_valueless(code):
+def repair_valueless(code, src=""):
     """attr.set / item.set / slice.set given a result value: same pops, one push
     (attr.set -> shape of `add`, item.set -> `invoke 2`, slice.set -> `invoke 4`)."""
     n = [0]
@@ -143,7 +143,7 @@ def repair_valueless(code):
     return map_bodies(code, f), n[0]
 
 
-def repair_jedup(code):
+def repair_jedup(code, src=""):
     """a `je.dup 0` is never emitted by a completed `||` (offsets are >= 1): it is the placeholder of an
     abandoned right operand; without it the left value simply stays."""
     n = [0]
@@ -157,7 +157,7 @@ def repair_jedup(code):
     return map_bodies(code, f), n[0]
 
 
-def repair_ternary(code):
+def repair_ternary(code, src=""):
     """`c ? x` + `, item`: the item's code sits between the arm's `jmp k` and the default `push.str ""`, inside
     the range the jump skips.  Signature: jmp k (k >= 2) whose last skipped instruction is `push.str ""` and whose
     skipped range before it is self-contained (every jump in it stays in it, no halt/ret) — a proper further arm
@@ -199,16 +199,42 @@ def repair_ternary(code):
     return map_bodies(code, f), n[0]
 
 
+ARRAY_SLICE = re.compile(r"\]\s*\[[^\]]*:")
+
+
+def repair_array_slice(code, src=""):
+    """slice on an array literal: array_call tries item-get first, emits the index code and fails at `:`; the slice
+    suffix then finds the index memoised and does not emit it again, so the first bound sits right behind push.arr —
+    misplaced as soon as anything is emitted in between (`1 || [1,2][0:1]`).  Only for sources that contain an
+    array literal directly followed by `[ ... :`; shape-level repair: the slice instruction takes one operand less
+    (slice.get -> shape of `invoke 2`, slice.set -> `popn 4`)."""
+    n = [0]
+    if not ARRAY_SLICE.search(src or ""):
+        return code, 0
+
+    def f(c):
+        for op in c:
+            if op[1] == "slice.get":
+                op[0:4] = [20, "invoke", "i", 2]
+                n[0] += 1
+            elif op[1] == "slice.set":
+                op[0:4] = [73, "popn", "i", 4]
+                n[0] += 1
+        return c
+    return map_bodies(code, f), n[0]
+
+
 REPAIRS = [("valueless-assignment-used-as-value", repair_valueless),
            ("ternary-list-misplaced-item-code", repair_ternary),
-           ("abandoned-or-operand-unpatched-jedup", repair_jedup)]
+           ("abandoned-or-operand-unpatched-jedup", repair_jedup),
+           ("array-literal-slice-misplaced-index-code", repair_array_slice)]
 
 
-def repair_candidates(code):
+def repair_candidates(code, src):
     """all non-empty subsets of applicable repairs, smallest first -> [(keys, repaired code)]"""
     applicable = []
     for key, fn in REPAIRS:
-        _, n = fn(json.loads(json.dumps(code)))
+        _, n = fn(json.loads(json.dumps(code)), src)
         if n:
             applicable.append((key, fn))
     out = []
@@ -219,7 +245,7 @@ def repair_candidates(code):
         keys = []
         for j, (key, fn) in enumerate(applicable):
             if bits >> j & 1:
-                c, _ = fn(c)
+                c, _ = fn(c, src)
                 keys.append(key)
         out.append((keys, c))
     return out
@@ -309,7 +335,7 @@ def run(res, tier, seed):
     for idx in sorted(rej_by_prog):
         if any(rj[2] == 4 for rj in rej_by_prog[idx]):
             continue    # numbering mismatch: nothing to repair
-        for keys, c in repair_candidates(programs[idx]):
+        for keys, c in repair_candidates(programs[idx], rows[idx]["src"]):
             cand.append((idx, keys, c))
     attributed, per_key, examples = {}, {}, {}
     if cand:
